@@ -26,6 +26,7 @@ RULE = ("sequences of all classes incl. length 1-3, one charge class, no neutral
         "permute_cluster_charges} x chains of 1-30 mixed moves x seeded tapes, a share with a hostile forced prefix; "
         "parents with delta-max cached or not; distinct = distinct (parent, move, frozen, result); non-trivial = result "
         "differs from the parent")
+RULE += ("; added after the mutation rounds: parents whose raw ratio lies in (1,1.1) with kappa() called before the move; the first cases of every shard are judged again at its end")
 EXHAUSTIVE = {"quick": False, "thorough": False}
 ASSUMPTIONS = [
     "frozen positions are 0-based indices (as the backend moves and the WL freeze-file define them)",
